@@ -14,13 +14,14 @@ RULE = ("programs = every tests/**/*.asm of the repository (with its directory a
         "#once graphs; G-fault programs of C13 with injected faults; G-banks programs of C06; G-tree include graphs of C14; "
         "G-expr data lines of C05) x option sets; + G-cli format strings and command lines of C18 (diagnostics of bad format "
         "strings).  Each case in one process: K sequential runs + 16 simultaneous threads (debug build), K sequential runs after a differently "
-        "shuffled history (debug), K/2 sequential + 16 threads in the release build after a third history; a sample of ~300 (quick) / ~3000 incl. the whole corpus (thorough) programs and the "
+        "shuffled history (debug), K/2 sequential + 16 threads in the release build after a third history; a sample of ~300 (quick) / ~1500 incl. the whole corpus (thorough) programs and the "
         "command lines k times in FRESH processes of the real binary (stdout, stderr, exit status, every output file of a "
-        "9-group command line compared byte for byte).  quick K = k = 4, thorough K = k = 32.  non-trivial = distinct program "
+        "9-group command line compared byte for byte).  quick K = k = 4, thorough K = k = 16 (directed families: never fewer than 8 fresh processes).  non-trivial = distinct program "
         "with >= 2 entries in some hash container (>= 2 sibling symbols, an asm block, >= 2 function parameters, >= 2 rules, "
         ">= 2 included files) or a format string with >= 2 parameters")
 
-SCRATCH = os.path.join(vlib.CACHE, "c10")
+# per process: several ./check C10 runs (other VERIF_REPO trees, other tiers) may be under way at once and each removes its scratch at the end
+SCRATCH = os.path.join(vlib.CACHE, "c10", "p%d" % os.getpid())
 GEN_V = os.path.join(vlib.COQ, "Gen", "GeneratedC10.v")
 
 REAL_GROUPS = [("annotated", "o_annotated.txt"), ("symbols", "o_symbols.txt"), ("mesen-mlb", "o_mesen.mlb"), ("intelhex", "o_ihex.txt"),
@@ -119,7 +120,7 @@ def corpus_cases():
 
 def generated_cases(chk):
     quick = chk.tier == "quick"
-    scale = 1 if quick else 4
+    scale = 1 if quick else 3
     out = []
     r = chk.rng.fork("g-c10")
     for _ in range(160 * scale):
@@ -438,7 +439,7 @@ def stream_fresh(chk, cases, status, real, k):
     quick = chk.tier == "quick"
     idx = [i for i, c in enumerate(cases) if disk_ok(c)]
     r = chk.rng.fork("fresh")
-    limit = 300 if quick else 3000
+    limit = 300 if quick else 1500
     if len(idx) > limit:
         # a third corpus (thorough: all of it), the rest generated, failing programs over-represented (their diagnostics are what varies)
         corp = [i for i in idx if cases[i].tag == "corpus"]
@@ -568,15 +569,15 @@ def stream_cli(chk, bins, real, K, k):
     # fresh processes (only a new process reseeds the hasher for sure): the first-of-several family always, >= 8 processes each;
     # a sample of the other format strings with >= 2 parameters, and whole command lines
     fixed = [x for x in several if x.split(",", 1)[1] in ("base:16,group:2", "base:16,zeta:1,alpha:2", "addr_unit:16,group:2,base:16")]
-    several_fresh = fixed + chk.rng.fork("severalpick").shuffle([x for x in several if x not in set(fixed)])[:30 if quick else 1000]
+    several_fresh = fixed + chk.rng.fork("severalpick").shuffle([x for x in several if x not in set(fixed)])[:30 if quick else 100]
     jobs = [("-f %r" % s, ["customasm", "main.asm", "-q", "-p", "-f", s], kk) for s in several_fresh]
     jobs += [("command line %r" % (a,), ["customasm"] + a, kk) for a in FIRST_OF_SEVERAL_ARGV]
     others = [s for s in many if s not in set(several)]
-    jobs += [("-f %r" % s, ["customasm", "main.asm", "-p", "-f", s], k) for s in chk.rng.fork("fmtreal").shuffle(others)[:60 if quick else 3000]]
+    jobs += [("-f %r" % s, ["customasm", "main.asm", "-p", "-f", s], k) for s in chk.rng.fork("fmtreal").shuffle(others)[:60 if quick else 600]]
     if t is not None:
         cmds, spell = cli_gen.command_cases(chk.rng.fork("cmd"), t, quick, c18.CMD_INPUTS)
         cmds = [cs for cs in cmds if c18.sane_for_disk(cs)]
-        cmds = chk.rng.fork("cmdpick").shuffle(cmds)[:80 if quick else 2500]
+        cmds = chk.rng.fork("cmdpick").shuffle(cmds)[:80 if quick else 500]
         jobs += [("command line %r" % (cs["argv"][1:],), cs["argv"], k) for cs in cmds]
 
     def work(j):
@@ -623,8 +624,8 @@ def run(chk):
     chk.prove()
     timing["prove"] = round(time.time() - t0, 1)
     quick = chk.tier == "quick"
-    K = 4 if quick else 32
-    k = 4 if quick else 32
+    K = 4 if quick else 16
+    k = 4 if quick else 16
     bins = vlib.harness_build(("debug", "release"), bins=["determ"])
     real = vlib.customasm_build(("debug",))["debug"]
     timing["build"] = round(time.time() - t0, 1)
